@@ -274,6 +274,9 @@ pub struct GenSlot {
     pub bufsizes_seen: u8,
     pub steps: usize,
     pub heavy: bool,
+    /// C03: this generator is always stepped with `fperiod + c03_extra` samples (fixed per generator,
+    /// different between generators), so generators over the same key are pulled with different buffer sizes
+    pub c03_extra: usize,
 }
 
 #[derive(Clone)]
@@ -1304,7 +1307,7 @@ impl<'a> Sim<'a> {
         if self.gens[g].is_some() {
             self.stats.probe("generator_replaced");
         }
-        self.gens[g] = Some(GenSlot { gen, fp, frames, cursor: 0, reference, collected: Vec::new(), key, last_task: task, bufsizes_seen: 0, steps: 0, heavy });
+        self.gens[g] = Some(GenSlot { gen, fp, frames, cursor: 0, reference, collected: Vec::new(), key, last_task: task, bufsizes_seen: 0, steps: 0, heavy, c03_extra: match (self.op_index + g) % 4 { 0 => 0, 1 => 1, 2 => fp, _ => 2 * fp } });
         Ok(())
     }
 
@@ -1320,7 +1323,7 @@ impl<'a> Sim<'a> {
             self.stats.probe("generator_moved_across_tasks");
         }
         let fp = gs.fp;
-        let extra = if prop == Prop::C03 { 0 } else { extra.min(2 * fp) };
+        let extra = if prop == Prop::C03 { gs.c03_extra } else { extra.min(2 * fp) };
         let len = fp + extra;
         let mut buf = vec![f64::from_bits(POISON); len];
         self.stats.api_calls += 1;
